@@ -397,6 +397,47 @@ pub mod tasks {
     }
 }
 
+// ---------------------------------------------------------------- R-TRUNC
+pub mod trunc {
+    pub fn ok_varint(data: &[u8]) -> Result<(u64, usize), String> {
+        let mut r = 0u64;
+        let mut shift = 0u32;
+        let mut pos = 0usize;
+        loop {
+            if pos >= data.len() {
+                return Err("truncated".to_string());
+            }
+            if shift >= 64 {
+                return Err("overflow".to_string());
+            }
+            let byte = data[pos];
+            pos += 1;
+            r |= ((byte & 0x7f) as u64) << shift;
+            if byte & 0x80 == 0 {
+                return Ok((r, pos));
+            }
+            shift += 7;
+        }
+    }
+    pub fn bad_varint(data: &[u8]) -> Result<(u64, usize), String> {
+        let mut r = 0u64;
+        let mut shift = 0u32;
+        let mut used = 0usize;
+        for &byte in data {
+            used += 1;
+            if shift >= 64 {
+                return Err("overflow".to_string());
+            }
+            r |= ((byte & 0x7f) as u64) << shift;
+            if byte & 0x80 == 0 {
+                break;
+            }
+            shift += 7;
+        }
+        Ok((r, used))
+    }
+}
+
 // ---------------------------------------------------------------- R-MISS
 pub mod miss {
     use super::*;
